@@ -38,7 +38,7 @@ BAD_PATH = {"path:empty": lambda at, b: at, "path:empty_segment": lambda at, b: 
             "path:trailing_dot": lambda at, b: at + b + ".", "path:leading_dot": lambda at, b: at + "." + b,
             "path:unterminated_quote": lambda at, b: at + b + '."x', "path:dangling_escape": lambda at, b: at + b + '."x\\',
             "path:not_identifier": lambda at, b: at + b + ".x y", "path:scope_in_segment": lambda at, b: at + b + ".@x"}
-BAD_VALUE = {"value:empty": "", "value:comment_only": "# nothing\n", "value:unclosed": "{ k = 7;", "value:dangling_operator": "7 +",
+BAD_VALUE = {"value:suite": "{ k = ", "value:empty": "", "value:comment_only": "# nothing\n", "value:unclosed": "{ k = 7;", "value:dangling_operator": "7 +",
              "value:stray_close": "7 ]", "value:two_statements": "7; 8"}
 # spellings of a well-formed value (the abstract value is the same; `vc' = the comments the text carries)
 VALUE_FORMS = {"": "{v}", "lead_ws": "  {v}", "trail_nl": "{v}\n", "tab": "\t{v}\t", "lead_nl": "\n{v}",
